@@ -48,6 +48,44 @@ def _names_assigned(stmts):
     return out
 
 
+_MUTATORS = {"append", "extend", "insert", "pop", "remove", "sort", "reverse", "update", "clear", "setdefault"}
+
+
+def _names_mutated(stmts):
+    """local names whose object is mutated in place inside stmts: x.append(..), x[..] = .., x += .."""
+    out = []
+
+    class V(ast.NodeVisitor):
+        def _add(self, n):
+            if isinstance(n, ast.Name) and n.id not in out:
+                out.append(n.id)
+
+        def visit_Call(self, n):
+            if isinstance(n.func, ast.Attribute) and n.func.attr in _MUTATORS:
+                self._add(n.func.value)
+            self.generic_visit(n)
+
+        def visit_Assign(self, n):
+            for t in n.targets:
+                if isinstance(t, ast.Subscript):
+                    self._add(t.value)
+            self.generic_visit(n)
+
+        def visit_AugAssign(self, n):
+            if isinstance(n.target, ast.Subscript):
+                self._add(n.target.value)
+            self.generic_visit(n)
+
+        def visit_FunctionDef(self, n):
+            pass
+
+        def visit_Lambda(self, n):
+            pass
+    for s_ in stmts:
+        V().visit(s_)
+    return out
+
+
 def _attr_assigned(stmts):
     """attributes `name.attr` that are (re)bound or mutated by subscript-store inside stmts"""
     out = []
@@ -267,6 +305,9 @@ class Rewriter(ast.NodeTransformer):
         if tnames is None:
             return node
         assigned = [n for n in _names_assigned(node.body) if n not in tnames and not n.startswith("__")]
+        for n in _names_mutated(node.body):
+            if n not in assigned and n not in tnames and n != "self":
+                assigned.append(n)
         attrs = _attr_assigned(node.body)
         it = "__it%d" % K
         brk = "__brk%d" % K
